@@ -129,6 +129,80 @@ harness! {
 
 harness! {
     #[kani::unwind(6)]
+    fn q14_receiver_spare_record_consumed_also_on_error() {
+        // the next record is already in the spare buffer (stream pending): one poll consumes exactly
+        // that record — cursor +1, the parked request for the following record is woken — whether or
+        // not it decodes (Fp31: bytes >= 31 do not), and the second poll serves the following byte.
+        let data: [u8; 2] = kani::any();
+        let next: usize = 0;
+        let mut st = state(next, vec![data[0], data[1]], [&[], &[]], true);
+        st.add_waker(next + 1, &waker(0));
+        let w = waker(3);
+        let mut cx = Context::from_waker(&w);
+        match st.poll_next::<Fp31>(&mut cx) {
+            Poll::Ready(Ok(m)) => assert!(data[0] < 31 && crate::verif_kani::c08_prime::rd31(m) == data[0], "record `next` is the next byte of the stream"),
+            Poll::Ready(Err(e)) => {
+                assert!(data[0] >= 31, "an error only for an undecodable record");
+                std::mem::forget(e);
+            }
+            Poll::Pending => assert!(false, "data is available"),
+        }
+        assert!(st.next == next + 1, "the record was consumed");
+        assert!(woken(0) == 1, "the request for the following record is woken, also after a decoding error");
+        match st.poll_next::<Fp31>(&mut cx) {
+            Poll::Ready(Ok(m)) => assert!(data[1] < 31 && crate::verif_kani::c08_prime::rd31(m) == data[1]),
+            Poll::Ready(Err(e)) => {
+                assert!(data[1] >= 31);
+                std::mem::forget(e);
+            }
+            Poll::Pending => assert!(false),
+        }
+        assert!(st.next == next + 2);
+        kani::cover!(data[0] >= 31 && data[1] < 31);
+        std::mem::forget(st);
+    }
+}
+
+harness! {
+    #[kani::unwind(6)]
+    fn x14_receiver_chunk_record_consumed_also_on_error() {
+        // same step, but the record arrives in the next chunk of the stream (spare buffer empty, an
+        // empty chunk possibly first); the rest of the chunk becomes the spare data.
+        // MEASURED: CBMC aborts (status 134) — `Spare::extend` writes through a
+        // `GenericArray::default()` buffer, the known crash; disabled.
+        let data: &'static [u8; 2] = Box::leak(Box::new(kani::any()));
+        let next: usize = 0;
+        let empty_first: bool = kani::any();
+        let mut st = if empty_first { state(next, Vec::new(), [&[], &data[..]], false) } else { state(next, Vec::new(), [&data[..], &[]], false) };
+        st.add_waker(next + 1, &waker(0));
+        let w = waker(3);
+        let mut cx = Context::from_waker(&w);
+        match st.poll_next::<Fp31>(&mut cx) {
+            Poll::Ready(Ok(m)) => assert!(data[0] < 31 && crate::verif_kani::c08_prime::rd31(m) == data[0], "record `next` is the next byte of the stream"),
+            Poll::Ready(Err(e)) => {
+                assert!(data[0] >= 31, "an error only for an undecodable record");
+                std::mem::forget(e);
+            }
+            Poll::Pending => assert!(false, "data is available"),
+        }
+        assert!(st.next == next + 1, "the record was consumed");
+        assert!(woken(0) == 1, "the request for the following record is woken, also after a decoding error");
+        match st.poll_next::<Fp31>(&mut cx) {
+            Poll::Ready(Ok(m)) => assert!(data[1] < 31 && crate::verif_kani::c08_prime::rd31(m) == data[1]),
+            Poll::Ready(Err(e)) => {
+                assert!(data[1] >= 31);
+                std::mem::forget(e);
+            }
+            Poll::Pending => assert!(false),
+        }
+        assert!(st.next == next + 2);
+        kani::cover!(data[0] >= 31 && empty_first);
+        std::mem::forget(st);
+    }
+}
+
+harness! {
+    #[kani::unwind(6)]
     fn q14_receiver_end_of_stream() {
         let next: usize = kani::any();
         kani::assume(next < 1000);
